@@ -43,6 +43,9 @@ TREE_SHAPES = {
 }
 
 BUILD_MODES = ("from_path", "tracked", "optimizer")
+# start states that are NOT initial: the tree already went through some
+# operations (most defects do not manifest from the initial state)
+EXTRA_MODES = ("sorted-contracted", "sliced-contracted", "annealed")
 
 
 def parse_net(name):
@@ -76,6 +79,21 @@ def make_start(spec):
         for i, j in ssa:
             nodes[nxt] = t.contract_nodes_pair(nodes.pop(i), nodes.pop(j))
             nxt += 1
+        return t
+    if mode in EXTRA_MODES:
+        t = ctg.ContractionTree.from_path(inputs, output, sd, ssa_path=ssa)
+        arrays = ref.make_arrays(inputs, sd, 0, lo=1, hi=3)
+        if mode == "sorted-contracted":
+            t.sort_contraction_indices()
+            t.contract(arrays)
+            t.contract(arrays, prefer_einsum=True)
+        elif mode == "sliced-contracted":
+            t.sort_contraction_indices(priority="size")
+            t.remove_ind_(U.used_inds(inputs)[1])
+            t.contract(arrays)
+        else:
+            t.contract(arrays)
+            t.simulated_anneal_(tsteps=2, numiter=2, seed=0)
         return t
     if mode == "optimizer":
         # a tree as an optimizer hands it out (caches populated differently)
